@@ -71,7 +71,16 @@ static void open_bytes(const unsigned char *raw, size_t n, const char *pt, const
     if(ok && strcmp(ps, "-")) ok = zck_set_ioption(zck, ZCK_VAL_HEADER_LENGTH, atol(ps));
     if(!ok) printf("BADPIN\n");
     else if((late ? lead_ok : zck_read_lead(zck)) && zck_read_header(zck)) dump(zck);
-    else printf("ERR\n");
+    else {
+        /* a caller that clears the error and simply tries again must not get further than the first time */
+        int again = 0;
+        if(zck_clear_error(zck)) {
+            if(zck_read_header(zck)) again = 1;
+            else if(zck_clear_error(zck) && zck_read_lead(zck) && zck_read_header(zck)) again = 2;
+        }
+        if(again) { printf("RETRY-OPENED%d ", again); dump(zck); }
+        else printf("ERR\n");
+    }
     zck_free(&zck);
     close(fd);
 }
